@@ -1,4 +1,5 @@
 import Martian.Model.Har
+import Martian.Model.JsonString
 import Martian.Drv.C15
 /-! Driver for C16: `hreq`, `hres`, `jsonpd`, `jsoncontent` (see go/internal/c16). -/
 namespace Martian.Drv.C16
@@ -29,9 +30,9 @@ def showPD : Option PostData → String
   | none => "none"
   | some pd => s!"pd {hex pd.mime} {showParams pd.params} {hex pd.text}"
 
-/-- Stand-in for encoding/json strings in the driver: identity on valid UTF-8, lossy otherwise. -/
-def jenc (s : Bytes) : Bytes := s
-def jdec (s : Bytes) : Option Bytes := if utf8Valid s then some s else some [0xEF, 0xBF, 0xBD]
+/-- The JSON string coder: the concrete model of encoding/json (Model/JsonString.lean). -/
+def jenc (s : Bytes) : Bytes := jsonEncodeString s
+def jdec (s : Bytes) : Option Bytes := jsonDecodeString s
 
 abbrev St := Unit
 def init : St := ()
@@ -60,7 +61,8 @@ def step (s : St) (toks : List String) : St × String :=
       let p : PostData := { mime := mime, params := ps, text := text }
       let j := marshalPD jenc p
       let rt := if unmarshalPD jdec j == some p then "ok" else "lossy"
-      (s, (if j.encoding.isSome then "base64 " else "text ") ++ (if rt == "ok" then hex j.text else "?") ++ " rt=" ++ rt)
+      (s, (if j.encoding.isSome then "base64 " else "text ") ++ (if rt == "ok" then hex j.text else "?") ++ " rt=" ++ rt
+            ++ " obj=" ++ hex (pdObj j))
     | _, _, _ => (s, "bad-op")
   | ["jsoncontent", b64, mime, text] =>
     match unhex mime, unhex text with
@@ -68,8 +70,23 @@ def step (s : St) (toks : List String) : St × String :=
       let c : Content := { size := text.length, mime := mime, text := text, base64 := b64 == "1" }
       let j := marshalContent jenc c
       let rt := if unmarshalContent jdec j == some c then "ok" else "lossy"
-      (s, (if j.encoding.isSome then "base64 " else "text ") ++ (if rt == "ok" then hex j.text else "?") ++ " rt=" ++ rt)
+      (s, (if j.encoding.isSome then "base64 " else "text ") ++ (if rt == "ok" then hex j.text else "?") ++ " rt=" ++ rt
+            ++ " obj=" ++ hex (contentObj j))
     | _, _ => (s, "bad-op")
+  | ["jsonstr", "enc", x] =>
+    match unhex x with
+    | some b =>
+      let tok := jsonEncodeString b
+      (s, s!"enc {hex tok} rt=" ++ (match jsonDecodeString tok with | some r => hex r | none => "err"))
+    | none => (s, "bad-op")
+  | ["jsonstr", "dec", x] =>
+    match unhex x with
+    | some tok => (s, match jsonDecodeString tok with | some r => "dec ok " ++ hex r | none => "dec err")
+    | none => (s, "bad-op")
+  | ["jsonstr", "san", x] =>
+    match unhex x with
+    | some b => (s, "san " ++ hex (sanitize b))
+    | none => (s, "bad-op")
   | _ => (s, "bad-op")
 
 end Martian.Drv.C16
